@@ -268,6 +268,16 @@ class Outbound:
         # send our queued messages
         self.resumeProducing()
 
+    def disconnecting(self):
+        # the Manager is about to drop the connection: stop being its
+        # producer, otherwise loseConnection() never completes while we are
+        # paused (unregistering twice is harmless). The transport no longer
+        # tells us when it is full, so our own producers wait for the next
+        # connection.
+        if self._connection is not None:
+            self._connection.transport.unregisterProducer()
+            self.pauseProducing()
+
     def stop_using_connection(self):
         self._connection.transport.unregisterProducer()
         self._connection = None
